@@ -737,6 +737,17 @@ Section Threshold.
     destruct (a_params a); reflexivity.
   Qed.
 
+  (** in_toto_verify on a directory is verify_body on its files, with the recursion's own results
+      for the sub-directories *)
+  Lemma verify_unfold : forall files subs,
+    verify b64dec loads sig_ok now_s now_us exec (Dir files subs) =
+    vbody files (recs_of b64dec loads sig_ok now_s now_us exec subs)
+          (verify_in_missing_dir b64dec loads sig_ok now_s now_us exec).
+  Proof.
+    intros files subs. cbn [verify]. f_equal. unfold recs_of, vfy.
+    induction subs as [|[n t] subs IH]; [reflexivity|]. cbn [map fst snd]. rewrite <- IH. reflexivity.
+  Qed.
+
   Lemma vbody_accept_inv : forall files recs missing a sum tr,
     vbody files recs missing a = (Ok sum, tr) ->
     exists l sm vm chain reduced,
@@ -891,6 +902,38 @@ Section Threshold.
     eapply Forall2_impl; [|exact HF]. intros s e [Hn [_ Hv]]. split; [exact Hn|].
     intros kid md lk Hin Hp. destruct (Hv kid md Hin) as [m [j [vk [_ [_ [_ [_ [_ Hnm]]]]]]]].
     eapply names_step_true; eassumption.
+  Qed.
+
+  (** a link recorded for another step is never in the verified set *)
+  Lemma replay_not_ok : forall l mk s kid md lk,
+    get_payload md = Ok (PLink lk) -> l_name lk <> JStr (st_name s) -> link_ok l mk s (kid, md) = false.
+  Proof.
+    intros l mk s kid md lk Hp Hn. unfold ThresholdSpec.link_ok. cbn [fst snd].
+    destruct (verification_key l mk s kid) as [[[vk mid]|e]|]; try reflexivity.
+    destruct mid; try reflexivity. destruct (vsig md vk) as [[]|e]; try reflexivity.
+    unfold names_step. rewrite Hp. cbn [bind].
+    destruct (l_name lk) as [| | | |n| |]; try reflexivity.
+    destruct (eqs n (st_name s)) eqn:E; [|reflexivity]. apply eqs_eq in E. subst. congruence.
+  Qed.
+
+  (** an individually authorised subkey: the entry has no subkeys of its own, so the accepted
+      signature is by exactly that key id - not by the master, not by a sibling *)
+  Lemma sig_by_exact_key : forall md vk, carries_valid_sig sig_ok now_s md vk -> subkey_ids vk = [] ->
+    exists sg kid, In sg (md_signatures md) /\ jstr_of (jget S_keyid vk) = Some kid /\
+                   jstr_of (jget S_keyid sg) = Some kid.
+  Proof.
+    intros md vk [sg [msg [Hin [[kid [k [H1 [H2 H3]]]] _]]]] He. rewrite He in H3.
+    destruct H3 as [->|[]]. exists sg, kid. repeat split; assumption.
+  Qed.
+
+  Lemma counts_authorised : forall l s kid vk m, counts l s kid vk m -> authorised l s kid vk.
+  Proof.
+    intros l s kid vk m [a H1 H2 H3 _|a H1 H2 H3 _|a mid mk0 H1 _ H3 H4 H5 _].
+    - unfold store in H2. destruct (lookup a (ly_keys l)) as [k|] eqn:E; [|discriminate].
+      destruct (jtruthy k); inversion H2; subst. eapply A_key; eauto.
+    - unfold store in H2. destruct (lookup a (ly_keys l)) as [k|] eqn:E; [|discriminate].
+      destruct (jtruthy k); inversion H2; subst. eapply A_subkey_of_master; eauto.
+    - eapply A_subkey_alone; eauto.
   Qed.
 
   (** the same at the point of use: a chain entry that came from a link file carries the step's name *)
